@@ -79,8 +79,7 @@ Proof.
   split; [vm_compute; reflexivity|].
   split.
   { unfold ex_printed. apply R_print.
-    - apply (R_ctor _ _ (Some ex_fmt) None None). vm_compute. reflexivity.
-    - vm_compute. discriminate. }
+    apply (R_ctor _ _ (Some ex_fmt) None None). vm_compute. reflexivity. }
   split; [vm_compute; discriminate|].
   split; [vm_compute; split; discriminate|].
   split; [vm_compute; reflexivity|].
